@@ -130,6 +130,20 @@ def stepLine (st : St) (toks : List String) : St :=
           let st := if jr then st else badJudge st s!"call {m} action {str r.action}: impl[{fmtObs o}] is not what the offered services allow"
           if jt then st else badJudge st s!"call {m}: result rtype={kv rest "rtype"} val={kv rest "val"} declared {str r.ret}"
       | _, _ => badCorr st s!"call {m}: no profile device or unknown facade method (not in the generated table)"
+  | ["callx", m, aliases, sentT, naT, excT] =>
+      -- explicit `services=[...]`: an empty list falls back to the default (`services or [...]`)
+      match st.prof, rowOf m with
+      | some d, some r =>
+          let al := if aliases == "~" then r.aliases else (commaList aliases).map (·.toList)
+          let sentS := (splitEq sentT).2
+          let o : CallObs := ⟨if sentS == "~" then [] else (commaList sentS).map (·.toNat!), (splitEq naT).2 == "T"⟩
+          let mo := obsOf (anyAction (ordOf st.order) Gen.C20Igd.igdServiceTypes d al r.action)
+          let st := if mo == o && (splitEq excT).2 == "-" then st
+                    else badCorr st s!"callx {m} [{aliases}] impl[{fmtObs o} exc={(splitEq excT).2}] model[{fmtObs mo}]"
+          -- judged for soundness only: the caller restricted the families himself
+          let sound := o.na || callOk (offered d) r.action o
+          if sound then st else badJudge st s!"callx {m} [{aliases}]: impl[{fmtObs o}] went to a service that is not an offered definer"
+      | _, _ => badCorr st s!"callx {m}: no profile device or unknown method"
   | ["t0", t] =>
       let t0 := t.toInt!
       { st with igd := some { tLast := t0 }, prev := ⟨t0, .none, .none, .none, .none⟩ }
